@@ -227,8 +227,13 @@ FStep(s, x, ora, redSet) ==
          {[s |-> [s EXCEPT !.sk = SilkFrame(s.sk, lf, x.k = 0, o)], x |-> [x EXCEPT !.k = @ + 1, !.pc = nx]]
           : o \in SilkOracles(s.sk, lf, x.k, ora)}
     [] x.pc = "f_red" ->                                                                     \* 482-519
-         LET ch == IF ~x.data \/ x.fec = 1 \/ x.mode = MODE_CELT THEN {<<FALSE, FALSE>>} ELSE redSet IN
+         LET coded == x.data /\ x.fec = 0 /\ x.mode # MODE_CELT
+             ch == IF coded THEN redSet ELSE {<<FALSE, FALSE>>}
+             \* the "sanity" path (500-507): a hybrid frame announces more redundant bytes than it has; the redundancy is
+             \* dropped (celt_to_silk keeps what was read), the main payload shrinks to nothing and the MDCT layer conceals
+             sn == IF coded /\ x.mode = MODE_HYBRID /\ ora.rz /\ redSet = RedChoices3 THEN BOOLEAN ELSE {} IN
          {[s |-> s, x |-> [x EXCEPT !.red = rc[1], !.c2s = rc[2], !.tr = x.tr /\ ~rc[1], !.pc = "f_trsilk"]] : rc \in ch}
+         \cup {[s |-> s, x |-> [x EXCEPT !.red = FALSE, !.c2s = c, !.sane = FALSE, !.pc = "f_trsilk"]] : c \in sn}
     [] x.pc = "f_trsilk" ->                                                                  \* 523-531
          One(s, [x EXCEPT !.pc = IF x.tr /\ x.mode # MODE_CELT THEN "f_callS" ELSE "f_cpre"])
     [] x.pc = "f_cpre" ->                                                                    \* 566-577: CELT->SILK redundant frame first
@@ -238,11 +243,8 @@ FStep(s, x, ora, redSet) ==
          THEN LET ce1 == IF x.mode # d.prevMode /\ d.prevMode > 0 /\ ~d.prevRedundancy THEN CeltInit ELSE s.ce
                   n   == Min(F20(d), x.asz) \div Q(d)
                   st  == IF x.mode = MODE_HYBRID THEN 17 ELSE 0 IN
-              IF x.data /\ x.fec = 0
+              IF x.data /\ x.fec = 0 /\ x.sane
               THEN One([s EXCEPT !.ce = CeltGood(ce1, IF x.mode = MODE_HYBRID THEN 0 ELSE -1)], [x EXCEPT !.pc = "f_cpost"])
-                   \cup (IF x.mode = MODE_HYBRID /\ ~x.red /\ ora.rz
-                         THEN One([s EXCEPT !.ce = CeltLost(ce1, n, st)], [x EXCEPT !.pc = "f_cpost", !.sane = FALSE])
-                         ELSE {})
               ELSE One([s EXCEPT !.ce = CeltLost(ce1, n, st)], [x EXCEPT !.pc = "f_cpost"])
          ELSE \* hybrid -> SILK: the MDCT fades out on a silence frame
               IF d.prevMode = MODE_HYBRID /\ ~(x.red /\ x.c2s /\ d.prevRedundancy)
@@ -382,7 +384,7 @@ FramePcs  == {"f_enter", "f_mode", "f_chunk", "f_trans", "f_room", "f_silk", "f_
 \* The sub-cases the description of the code distinguishes, as tags of the sub-step from configuration a to b.
 X(a) == Active(a)
 CeltSwitch(a) == X(a).mode # MODE_SILK /\ X(a).mode # a.s.c.prevMode /\ a.s.c.prevMode > 0 /\ ~a.s.c.prevRedundancy
-CeltCoded(a)  == X(a).mode # MODE_SILK /\ X(a).data /\ X(a).fec = 0
+CeltCoded(a)  == X(a).mode # MODE_SILK /\ X(a).data /\ X(a).fec = 0 /\ X(a).sane
 T(c, t) == IF c THEN {t} ELSE {}
 TagsOf(a, b) ==
   LET p == PcOf(a) x == X(a) y == X(b) IN
@@ -405,11 +407,10 @@ TagsOf(a, b) ==
                         \cup T(b.s.sk.dom = 1, "midOnly") \cup T(a.s.sk.dom = 1 /\ b.s.sk.dom = 0 /\ x.data, "sideReset")
                         \cup T(a.s.sk.ch[1].fs # b.s.sk.ch[1].fs /\ a.s.sk.ch[1].fs # 0, "rateSwitch")
                         \cup T(a.s.sk.ci = 1 /\ b.s.sk.ci = 2, "monoToStereo")
-    [] p = "f_red"   -> T(y.red /\ y.c2s, "redC2s") \cup T(y.red /\ ~y.c2s, "redS2c") \cup T(x.tr /\ ~y.tr, "redReplacesTransition")
+    [] p = "f_red"   -> T(~y.sane, "sanity") \cup T(y.red /\ y.c2s, "redC2s") \cup T(y.red /\ ~y.c2s, "redS2c") \cup T(x.tr /\ ~y.tr, "redReplacesTransition")
     [] p = "f_trsilk" -> T(y.pc = "f_callS", "transSilk")
     [] p = "f_cpre"  -> T(x.red /\ x.c2s, "c2sFirst")
-    [] p = "f_celt"  -> T(CeltCoded(a) /\ y.sane /\ ~CeltSwitch(a), "celtDecode") \cup T(CeltCoded(a) /\ y.sane /\ CeltSwitch(a), "celtResetDecode")
-                        \cup T(CeltCoded(a) /\ ~y.sane, "sanity")
+    [] p = "f_celt"  -> T(CeltCoded(a) /\ ~CeltSwitch(a), "celtDecode") \cup T(CeltCoded(a) /\ CeltSwitch(a), "celtResetDecode")
                         \cup T(x.mode # MODE_SILK /\ ~CeltCoded(a) /\ b.s.ce.skip = 0, "pitchPlc")
                         \cup T(x.mode # MODE_SILK /\ ~CeltCoded(a) /\ b.s.ce.skip = 1, "noisePlc")
                         \cup T(x.mode # MODE_SILK /\ ~CeltCoded(a) /\ CeltSwitch(a), "celtResetConceal")
@@ -462,7 +463,6 @@ OpTypeOK(s) == /\ DecTypeOK(s.c) /\ CeltTypeOK(s.ce) /\ SilkTypeOK(s.sk) /\ s.hk
 \* state theorems of the bookkeeping
 CounterShape(s) ==
   /\ \A n \in 1..2 : s.sk.ch[n].ll = B01(s.sk.ch[n].l > 0)             \* last_frame_lost <=> lossCnt > 0 (conceal -> glue)
-  /\ s.hk.c2s = 1 => s.hk.red = 1
   /\ s.hk.red = 1 => s.hk.tr = 0                                        \* a redundant frame replaces the transition
   /\ s.c.prevRedundancy => (s.hk.red = 1 /\ s.hk.c2s = 0)
   /\ s.c.prevMode = 0 => (s.ce = CeltInit /\ s.sk.ch = <<ChInit, ChInit>>)   \* nothing decoded since creation / reset
